@@ -198,4 +198,10 @@ def fixArrStr (s : String) : Option String :=
   | some out => bytesToString? out
   | none => none
 
+/-- the text `New` hands to the parser: the dialect rewrites in the order `New` applies them — the quote rewrite first,
+    the array rewrite on ITS result (`query = rs` between the two) — each only when its option is set -/
+def applyDialect (pg arr : Bool) (s : List UInt8) : R (List UInt8) := do
+  let s1 ← if pg then dq2btE s else pure s
+  if arr then fixArrE s1 else pure s1
+
 end Genql.Scan
